@@ -65,8 +65,92 @@ partial def shapeJ : CR.Rigid.Shape → Json
   | .poly vs => Json.mkObj [("k", "poly"), ("v", Json.arr (vs.map ptJ).toArray)]
   | .group ss => Json.mkObj [("k", "group"), ("s", Json.arr (ss.map shapeJ).toArray)]
 
+def mutOf (j : Json) : P Mut := do
+  match ← getStr j "m" with
+  | "set_initial" => pure (.setInitial (← getInt j "t"))
+  | "set_prediction" => pure (.setPrediction (← predOf (← field j "pred")))
+  | "set_phantom" =>
+    match fieldOpt j "occs" with
+    | none => pure (.setPhantom none)
+    | some o => pure (.setPhantom (some (← listOf tsOf o)))
+  | "update_initial" => pure (.updateInitial (← getInt j "t"))
+  | "keep" => pure .keep
+  | k => throw s!"mutation {k}"
+
+def roleOptOf (a : Json) (k : String) : P (Option Role) :=
+  match fieldOpt a k with
+  | none => pure none
+  | some r => do pure (some (← roleOf (← asStr r)))
+
+/-- answers of one `query` step of a scenario history -/
+def scnQuery (s : Scn) (a : Json) : P Json := do
+  let t ← getInt a "t"
+  let role ← roleOptOf a "role"
+  let ty ← match fieldOpt a "ty" with
+    | none => pure none
+    | some r => do pure (some (← asNat r))
+  let types ← getList (fun j => do
+      match ← asArr j with
+      | [i, v] => pure (← asNat i, if v.isNull then none else (v.getNat?).toOption)
+      | _ => throw "types: expected [id, ty|null]") a "types"
+  let ctrs ← getList (fun j => do
+      match ← asArr j with
+      | [i, v] => do
+        if v.isNull then pure (← asNat i, (none : Option (Rat × Rat)))
+        else
+          let p ← ptOf v
+          pure (← asNat i, some (p.x, p.y))
+      | _ => throw "ctrs: expected [id, [x,y]|null]") a "ctrs"
+  let roles ← getList (fun j => do roleOf (← asStr j)) a "roles"
+  let iv (k : String) : P CR.Iv.I := do
+    match ← getList asRat a k with
+    | [lo, hi] => pure ⟨lo, hi⟩
+    | _ => throw "interval: expected [lo, hi]"
+  let obs := s.obstacles
+  let tyOf (i : Nat) : Option Nat := ((types.find? (fun x => x.1 == i)).map (fun x => x.2)).join
+  let ctr (i : Nat) : Option (Rat × Rat) := ((ctrs.find? (fun x => x.1 == i)).map (fun x => x.2)).join
+  pure <| Json.mkObj [
+    ("order", Json.arr ((obs.map fun x => natJ x.1).toArray)),
+    ("occs", resJ (fun l => Json.arr ((l.map fun (i, oc) => Json.arr #[natJ i, occJ oc]).toArray)) (occupanciesAtChk obs t role)),
+    ("states", resJ (fun l => Json.arr ((l.map fun (i, st) => Json.arr #[natJ i, stJ st]).toArray)) (statesAtChk obs t)),
+    ("by_role_type", Json.arr ((byRoleType (obs.map fun (i, o) => (i, o, tyOf i)) role ty).map natJ).toArray),
+    ("by_position", Json.arr ((byPosition obs ctr (← iv "ix") (← iv "iy") roles t).map natJ).toArray)]
+
+def idObstOf (j : Json) : P (Nat × Obst) := do pure (← getNat j "id", ← obstOf (← field j "obst"))
+
 def handle (op : String) (a : Json) : P Json := do
   match op with
+  | "history" =>
+    let o ← obstOf (← field a "obst")
+    let ms ← getList mutOf a "muts"
+    let ts ← getList asInt a "ts"
+    let o' := o.run ms
+    pure <| Json.arr (ts.map fun t =>
+      Json.mkObj [("occ", optJ occJ (occupancyAt o' t)), ("st", optJ stJ (stateAt o' t))]).toArray
+  | "scn" =>
+    let used ← getList asNat a "used"
+    let ops ← getList pure a "ops"
+    let mut s : Scn := { used := used }
+    let mut out : Array Json := #[]
+    for j in ops do
+      match ← getStr j "op" with
+      | "add" =>
+        let (i, o) ← idObstOf j
+        match s.add i o with
+        | .ok s' => s := s'; out := out.push (okJ Json.null)
+        | .error e => out := out.push (errJ e)
+      | "add_many" =>
+        let items ← getList idObstOf j "items"
+        let r := s.addMany items
+        s := r.1
+        out := out.push (if r.2 then okJ Json.null else errJ .value)
+      | "remove" =>
+        s := s.remove (← getNat j "id"); out := out.push (okJ Json.null)
+      | "mutate" =>
+        s := s.mutate (← getNat j "id") (← mutOf (← field j "mut")); out := out.push (okJ Json.null)
+      | "query" => out := out.push (← scnQuery s j)
+      | k => throw s!"scn op {k}"
+    pure (Json.arr out)
   | "place" =>
     let sh ← shapeOf (← field a "shape")
     pure <| shapeJ (CR.Place.place (← getRat a "c") (← getRat a "s") (← getRat a "a") (← getRat a "tau") (← ptOf (← field a "t")) sh)
